@@ -25,10 +25,15 @@ Definition paren {A} (p : parser A) : parser A := delimited (chr 40) p (chr 41).
 Definition paren_str : parser (list N) := paren (take_till0 (N.eqb 41)).
 
 (* ---- primitive.rs ---- *)
-Definition is_decimal_char (c : N) : bool := is_digit c || (c =? 45) || (c =? 44) || (c =? 46).
+Definition is_decimal_char (c : N) : bool := is_digit c || (c =? 44) || (c =? 46).
+
+(* the number token: an optional leading minus, then the maximal run of [0-9,.]; not empty *)
+Definition decimal_token : parser (list N) :=
+  try_map (taken (opt (chr 45) ;;; take_while0 is_decimal_char))
+          (fun s => match s with [] => None | _ => Some s end).
 
 Definition pretty_decimal : parser pdec :=
-  try_map (take_while1 is_decimal_char)
+  try_map decimal_token
           (fun s => match scan s with SOk d => Some d | SErr _ => None end).
 
 (* b" \t\r\n0123456789.,;:?!-+*/^&|=<>[](){}@" *)
